@@ -306,3 +306,65 @@ claim("C20",
       "Coq proof on a finite ownership model (computation per operation, induction over histories) + fd-accounting "
       "oracle + in-Coq trace correspondence",
       "DESIGN.md section 7, C20; sections 4, 8")
+claim("C04",
+      "Theorems (Props/C04.v, closed under the global context, nothing partial) on the abstract per-channel model of "
+      "the lazy read (Model/LazyRead.v: per segment chunk size, number of chunks, final-chunk override, layout kind, "
+      "chunk values; _build_index, the two searchsorted calls as counting functions, the loop of "
+      "read_raw_data_for_channel line by line with chunk skipping/dropping, values_read/trim, Python's negative-stop "
+      "slice in _trim_channel_chunk, interleaved segments yielding one chunk object, the preallocated NumPy receiver "
+      "and the list receiver, TdmsChannel._read_channel_data's clamping and ValueErrors, "
+      "read_channel_chunk_for_index and the one-chunk cache of _read_at_index, slice_raw_data): window_correct -- for "
+      "every well-formed segment list, every offset >= 0 and length >= 0 or None, lz_read = full[offset:offset+length] "
+      "wherever the window falls relative to segment/chunk boundaries, with truncated final chunks (final length 0..chunk), "
+      "zero-length segments and segments without the channel; window_rejects_negative; slice_plan_correct -- the plan "
+      "computed by the TRANSLATED TdmsChannel._read_slice (Gen/PySlice_gen.v, regenerated from nptdms/tdms.py each run, "
+      "fail-closed, self-tested on 4 800 boundary cases), executed by the lazy reader, equals Python's "
+      "full[start:stop:step] as defined after CPython's PySlice_AdjustIndices (Base/PySlice.v, tied to the element loop "
+      "by py_slice3_nth_pos/neg) for all None/negative/out-of-range bounds, both step signs, zero-length channels, "
+      "step 0 = ValueError; index_correct -- channel[i] returns what indexing the full array returns or IndexError, "
+      "for any cache state; eager_window_correct. window_refuted / window_refuted_d13: the loop as it was in the "
+      "snapshot (lz_read_asis) is refuted by the D3 and D13 witnesses. Tie: all lazy and eager windows, index sequences "
+      "and slice grids of every generated file are evaluated inside Coq on the generator's abstract description and "
+      "compared with nptdms (quick 103 files / 58 000 Coq cases, thorough 1 500 files); direct oracle: NumPy indexing on the "
+      "eagerly read array for lazy and eager files, read_data(scaled=False), ValueError/IndexError agreement "
+      "(quick 437 000 calls; exhaustive per file for channels of <= 12 values).",
+      "Trusted: Coq kernel + vm_compute; the translator gen_pyfuncs_slice.py (ast, 420 lines with its self-test); the "
+      "hand-written model, validated by the correspondence; the generator's abstract description of each file "
+      "(checked against the eager read of every file); values are integer codes (byte decoding is C01's subject); "
+      "NumPy receivers / searchsorted / cumsum / list slicing are modelled. lz_read models the REPAIRED loop: defects "
+      "found on the snapshot and fixed in /repo -- D3 (dev/patches/D3.patch: `continue` skipped segment_index += 1), "
+      "D13 (D13.patch: final_chunk_size by modulo is wrong when the channel has 0 values in the truncated final "
+      "chunk; read_data(0,2) raised ValueError / strings got extra values), D14 (D14.patch: channel[-2:] on a "
+      "zero-length lazily opened channel raised ValueError); violation keys d3-segment-index, d13-final-chunk-zero, "
+      "d14-empty-channel-slice reappear with a replay (file hex + request) if a fix is reverted. Not modelled: the "
+      "empty chunk object yielded for a segment without kTocRawData; DAQmx receivers.",
+      "Coq proof (induction over the visited segments with the invariant 'values emitted so far = window meet earlier "
+      "segments', lia/nia with euclidean division; case analysis + lia on the translated slice function) + "
+      "translator + in-Coq correspondence + NumPy oracle",
+      "DESIGN.md section 7, C04; sections 3a, 4, 8, 9 (D3)")
+claim("C19",
+      "Theorems (Props/C19.v, closed under the global context) on the I/O plan, which is the log of (segment, chunk) "
+      "pairs produced by the same loop function the C04 theorems are about (Model/LazyRead.v lz_loop): "
+      "plan_exact_chunks -- for every well-formed file description, offset >= 0 and length, the chunks fetched are "
+      "EXACTLY the chunks of segments holding the channel whose value range meets the window (chunk_start < end and "
+      "offset < chunk_end), so what is read is bounded by the request and 'read the whole segment, trim afterwards' "
+      "breaks the theorem; index_fetches_one_chunk -- a cache miss fetches exactly the chunk that holds the index; "
+      "cache_hit_reads_nothing -- an index inside the cached chunk's bounds issues no read and keeps the cache; "
+      "plan_refuted -- the snapshot's loop over-reads on the D3 witness. Tie / search: every generated file (half of "
+      "them carrying a large unrelated channel and segments) is opened through a recording stream; after open() the "
+      "log is reset and for every read_data window, slice and integer index each read()/readinto() (position, size) "
+      "must lie in the raw data of a chunk overlapping the request -- for contiguous layout inside the requested "
+      "channel's bytes of that chunk -- or be a 4-byte tag check of a segment between the first and last overlapping "
+      "segment (once each); total bytes <= the bound computed from the request alone; after channel[i], indexing "
+      "again at the bounds of and inside the chunk just read (positive and negative form) must issue no read; the set "
+      "of chunks touched is compared inside Coq with lz_plan / read_at_index (quick 122 files, 110 000 requests, "
+      "85 000 Coq cases; thorough 1 200 files).",
+      "Partial by nature: bytes per fetched chunk and the tag check are measured, not proved (the model counts chunks, "
+      "the byte layout is the harness's); prefetching below the stream interface is invisible; metadata reading at "
+      "open time is outside the claim; zero-length reads are ignored; for an empty window the chunk strictly "
+      "containing the offset may be fetched (stated in the theorem). Trusted: Coq kernel + vm_compute, the recording "
+      "BytesIO subclass, the generator's byte layout. Same repaired loop as C04 (D3, D13: both also over-read; keys "
+      "d3-segment-index, d13-final-chunk-zero).",
+      "Coq proof (shared with C04: the plan is the skeleton of lz_read) + recording-stream oracle + in-Coq plan "
+      "correspondence",
+      "DESIGN.md section 7, C19; sections 4, 8")
